@@ -5,7 +5,7 @@ set -e
 REPO=${VERIF_REPO:-/repo}
 export REPO
 export GOFLAGS=-mod=mod GOPROXY=off GOSUMDB=off GOTOOLCHAIN=local GODEBUG=asynctimerchan=0
-S=$(mktemp -d /var/tmp/verifdev.XXXXXX)
+S=$(mktemp -d /var/tmp/verifdev-go-build.XXXXXX)
 trap "rm -rf $S" EXIT
 python3 - "$2" "$S" <<'PY'
 import sys,os,json
